@@ -432,7 +432,7 @@ Definition g_split (s : vsock) : bool :=
   if Z.of_nat (length (ring (v_tx s))) =? 0 then true
   else
     let s1 := split_s1 s in
-    match snd (pop_expired_mtu_probe (v_segs s1) (timer_expired (v_t_retransmit s1) (v_now s1))
+    match snd (pop_expired_mtu_probe (v_segs s1) (timer_expired (v_t_retransmit s1) (v_now s1) && negb (is_local_fin_or_later (v_state s1)))
                                      (o_mtu_probe_max_retx (v_opts s1))) with
     | PeExpired rewind_to _ => cmp_ok (v_last_sent_seq_nr s1) rewind_to
     | _ => true
